@@ -185,7 +185,24 @@ func (s *OS[T, P]) RunOps(start string, ops [][]string, preds Pred) (key, expect
 			return "start-not-parsed", "start vector accepted by model and implementation", fmt.Sprintf("impl err=%v model ok=%v", err, ok)
 		}
 		o = *po
-		model = mv
+		model = mv.Clone()
+		// the operations below act on a COPY of the parsed object; at the end the parsed object itself and a
+		// fresh parse of the same string must still hold the original values (no aliasing between results)
+		defer func() {
+			if key != "" {
+				return
+			}
+			want, berr := s.Build(mv)
+			if berr != nil {
+				return
+			}
+			// edit the first result through its pointer, then parse again
+			m0 := ver.Metrics[0]
+			P(po).Set(m0.Abv, m0.Values[(int(mv[0])+1)%len(m0.Values)])
+			if p2, e2 := s.I.Parse(start); e2 != nil || p2 == nil || *p2 != want {
+				key, expected, observed = "parse-results-alias", "a later ParseVector of the same string is unaffected by Set on an earlier result", fmt.Sprintf("second parse of %s gives %v, want %v (err=%v)", start, p2, s.I.Describe(want), e2)
+			}
+		}()
 	}
 	var panicked any
 	for step, op := range ops {
@@ -288,6 +305,20 @@ func (s *OS[T, P]) stateInvariantsV(a spec.Assignment, o T, preds Pred) (key, ex
 			for i := range ba {
 				if ba[i] != a[i] {
 					return "roundtrip/Get-differs-" + ver.Metrics[i].Abv, ver.Metrics[i].Values[a[i]], ver.Metrics[i].Values[ba[i]], vec
+				}
+			}
+			// independence of parse results: a second parse of the same string must not alias the first
+			if back2, err2 := s.I.Parse(vec); err2 == nil && back2 != nil {
+				m0 := ver.Metrics[0]
+				alt := m0.Values[(int(a[0])+1)%len(m0.Values)]
+				P(back).Set(m0.Abv, alt)
+				lastM := ver.Metrics[len(ver.Metrics)-1]
+				P(back).Set(lastM.Abv, lastM.Values[(int(a[len(a)-1])+1)%len(lastM.Values)])
+				if *back2 != o {
+					return "parse-results-alias", "objects returned by two ParseVector calls are independent", fmt.Sprintf("Set on the first result changed the second: %v (want %v) for %s", s.I.Describe(*back2), s.I.Describe(o), vec), vec
+				}
+				if back3, err3 := s.I.Parse(vec); err3 != nil || back3 == nil || *back3 != o {
+					return "parse-results-alias", "a later ParseVector of the same string is unaffected by Set on an earlier result", fmt.Sprintf("third parse of %s gives %v err=%v", vec, back3, err3), vec
 				}
 			}
 		}
